@@ -163,14 +163,24 @@ def run_c07(tier, seed, res):
 # ------------------------------------------------------------------ C08
 def run_c08(tier, seed, res):
     E.run_workload(res, "mon", "C08h", sz(tier, 30000, 1200000), tier, seed)
+    E.run_workload(res, "mon", "C08t", sz(tier, 800, 20000), tier, seed, extra=["--threads", "16"], chunks=sz(tier, 8, 16), per_case_timeout=20.0)
+    n_miri = sz(tier, 24, 512)
+    E.run_miri(res, "C08t", n_miri, tier, seed, extra=["--tiny"], procs=n_miri, vary_scheduler_seed=True)
+    res.add_counter("miri_scheduler_seeds_used", n_miri)
+    if tier == "thorough":
+        E.run_workload(res, "tsan", "C08t", 400, tier, seed + 2, extra=["--threads", "8"], chunks=8, env=TSAN_ENV, per_case_timeout=60.0)
     return {
         "rule": "case = random history of 0..8 operations {update_raw ok/failing, update_tokenized, update_partial_annotation, predict with one of "
                 "up to 6 predictors from two models (plain / tags / tags+scores), fill_tags, reset_tags(k), the four filters, writes through "
                 "boundaries_mut / tags_mut} followed by update_raw(x); predict; [fill_tags]; the complete observable state is compared with a "
-                "fresh sentence and with the reference tagger; every step runs under catch_unwind; distinct = distinct (history, final predictor, text)",
+                "fresh sentence; every step runs under catch_unwind; schedules: 2..16 threads share one predictor, each reusing its own sentence over a "
+                "shuffled text list for several rounds, results compared with a sequential baseline - natively, under Miri's data-race detector with "
+                "several scheduler seeds (tiny models) and, thorough tier, under ThreadSanitizer with an instrumented std; the set of interleavings "
+                "seen natively is not observable and is not claimed; distinct = distinct (history, final predictor, text) / (model, threads, rounds)",
         "required": ["histories_with_tagged_state_before_final_update", "histories_with_other_predictor_before_final",
                      "histories_with_failed_update_directly_before_final", "final_predictor_with_tags",
-                     "final_predictor_storing_scores", "history_ops"],
+                     "final_predictor_storing_scores", "history_ops", "concurrent_predictions", "threads_started",
+                     "cases_with_tag_prediction"],
     }
 
 
@@ -314,6 +324,168 @@ def run_c20(tier, seed, res):
     }
 
 
+
+# ------------------------------------------------------------------ C13 (feature matrix)
+QUICK_FEATURE_SETS = ["default", "alloc-only", "no-cache", "no-fix", "no-charwise", "no-tags", "simd"]
+
+
+def _read_traces(tag):
+    import glob
+    out = {}
+    for f in glob.glob(os.path.join(E.BUILD, "run", tag, "*.trace")):
+        with open(f) as fh:
+            for line in fh:
+                p = line.split()
+                if len(p) == 5:
+                    out[(int(p[0]), int(p[1]))] = (p[2], p[3], p[4])
+    return out
+
+
+def build_many(kinds):
+    """Builds several flavours concurrently (each cargo invocation is itself parallel)."""
+    import concurrent.futures as cf
+    errs = []
+    with cf.ThreadPoolExecutor(max_workers=4) as ex:
+        futs = {ex.submit(E.build, k): k for k in kinds}
+        for f in futs:
+            try:
+                f.result()
+            except E.Inconclusive as e:
+                errs.append(str(e))
+    if errs:
+        raise E.Inconclusive(errs[0])
+
+
+def run_feature_matrix(res, names, n_cases, tier, seed, sig_prefix="C13"):
+    all_sets = dict(E.FEATURE_SETS)
+    all_sets.update(E.all_feature_sets())
+    build_many(["feat:" + n for n in names])
+    traces = {}
+    for n in names:
+        tag = "feat-%s" % n
+        E.run_workload(res, "feat:" + n, "C13", n_cases, tier, seed, tag=tag, chunks=max(1, E.NCPU // 2))
+        traces[n] = _read_traces(tag)
+    base_name = names[0]
+    base = traces[base_name]
+    compared = 0
+    per_build = {}
+    for n in names:
+        t = traces[n]
+        per_build[n] = {"features": all_sets[n][0], "predictions_traced": len(t)}
+        has_tags = "tag-prediction" in all_sets[n][0]
+        if n == base_name:
+            continue
+        for key, (sc, lb, tg) in base.items():
+            if key not in t:
+                continue   # a violation or abort in that build is reported by its own events
+            compared += 1
+            sc2, lb2, tg2 = t[key]
+            what = None
+            if sc != sc2:
+                what = "scores"
+            elif lb != lb2:
+                what = "boundaries"
+            elif has_tags and "tag-prediction" in all_sets[base_name][0] and tg != tg2:
+                what = "tags"
+            if what:
+                res.violations.append({
+                    "t": "violation", "sig": "%s:%s_differ_between_feature_configurations" % (sig_prefix, what),
+                    "case": key[0], "seed": seed, "workload": "C13", "build": "feat:" + n, "extra_args": [],
+                    "detail": {"text_index": key[1], "build_a": base_name, "features_a": all_sets[base_name][0],
+                               "build_b": n, "features_b": all_sets[n][0], "digests_a": [sc, lb, tg], "digests_b": [sc2, lb2, tg2]},
+                })
+    res.add_counter("cross_build_trace_comparisons", compared)
+    res.add_counter("feature_configurations_run", len(names))
+    return per_build
+
+
+def run_c13(tier, seed, res):
+    if tier == "thorough":
+        names = ["default"] + sorted(E.all_feature_sets().keys())
+        n_cases = 6000
+    else:
+        names = QUICK_FEATURE_SETS
+        n_cases = 1500
+    per_build = run_feature_matrix(res, names, n_cases, tier, seed)
+    return {
+        "rule": "the same seeded workload (generated models with/without tag models x texts, as for C01/C06) is executed by one binary per feature "
+                "configuration; every build checks scores, decisions, tags, tag scores and its own serialise/deserialise round trip against the "
+                "reference and writes a trace of digests; the driver compares every trace with the default build's (tags only among builds with "
+                "tag prediction); non-trivial iff a prediction was traced; distinct = distinct (model, texts) digests over all builds",
+        "required": ["cross_build_trace_comparisons", "predictions_traced", "cases_with_tag_models", "type_window_up_to_3",
+                     "type_window_above_3", "weight_vectors_longer_than_8"],
+        "extra": {"builds": per_build},
+    }
+
+
+
+# ------------------------------------------------------------------ C16
+def run_c16(tier, seed, res):
+    E.run_workload(res, "mon", "C16n", 272, tier, seed, chunks=32)
+    E.run_workload(res, "mon", "C16s", sz(tier, 30000, 1000000), tier, seed)
+    E.run_workload(res, "tantivy", "C16t", sz(tier, 1500, 60000), tier, seed)
+    return {
+        "rule": "normaliser: ALL 1 112 064 Unicode scalar values (one character out, idempotent, equal to the transcribed table else identity) "
+                "plus random strings (per-character behaviour, character count); token stream: generated models x texts (empty, multi-byte, "
+                "CR/LF, half-width, repeated lines, NUL) x random wsconst strings over {D,R,H,T,K,O,G}, tokenizer built from a model or from a "
+                "serialised predictor: offsets on character boundaries, tiling 0..len, text == original substring, positions 0,1,2.., breaks "
+                "== core pipeline (normalise, predict, line-break filter, configured filters) computed from library calls; "
+                "distinct = distinct code-point blocks / strings / (model, texts, wsconst)",
+        "required": ["scalar_values_checked", "scalar_values_changed_by_normaliser", "strings_changed_by_normaliser", "tokens_checked",
+                     "streams_compared_with_core_pipeline", "texts_empty", "texts_with_cr_or_lf", "texts_changed_by_normaliser",
+                     "texts_with_multibyte", "tokenizers_from_serialised_predictor", "wsconst_with_grapheme_filter", "wsconst_empty"],
+        "exhaustive": True,
+        "extra": {"exhaustive_scope": "the normaliser is checked on every Unicode scalar value; strings and token streams are sampled"},
+    }
+
+
+
+# ------------------------------------------------------------------ C18 (unsafe surface under sanitizers)
+C18_FEATURE_SETS = ["default", "no-charwise", "no-fix", "no-cache", "no-tags"]
+TSAN_ENV = {"TSAN_OPTIONS": "halt_on_error=1:abort_on_error=1:report_signal_unsafe=0"}
+
+
+def run_c18(tier, seed, res):
+    E.run_workload(res, "mon", "C18u", sz(tier, 1500, 40000), tier, seed)
+    E.run_workload(res, "asan", "C18u", sz(tier, 600, 12000), tier, seed + 1, env=ASAN_ENV, per_case_timeout=8.0)
+    names = C18_FEATURE_SETS if tier == "quick" else ["default"] + sorted(E.all_feature_sets().keys())
+    build_many(["feat:" + n for n in names])
+    for n in names:
+        # vfeat runs in the UB-precondition-checking profile: an abort in any feature configuration is a C18 violation
+        sub = E.Results()
+        E.run_workload(sub, "feat:" + n, "C13", sz(tier, 1500, 4000), tier, seed, tag="c18-feat-%s" % n, chunks=max(1, E.NCPU // 2))
+        for v in sub.violations:
+            if ":abort:" in v["sig"] or ":hang:" in v["sig"] or "assertion failed" in json.dumps(v.get("detail", "")):
+                v = dict(v)
+                v["sig"] = "C18:" + v["sig"].split(":", 1)[1] + "[features=%s]" % n
+                res.violations.append(v)
+        res.incidents.extend(sub.incidents)
+        res.runs.extend(sub.runs)
+        res.evals += sub.evals
+        res.cases += sub.cases
+        res.digests.update(sub.digests)
+        res.add_counter("feature_configurations_run_with_ub_checks", 1)
+        res.add_counter("predictions_in_feature_builds", sub.counters.get("predictions_traced", 0))
+    n_miri = sz(tier, 24, 640)
+    E.run_miri(res, "C18u", n_miri, tier, seed, extra=["--tiny"], procs=n_miri)   # one interpreter process per case (costs vary 7..120 s)
+    return {
+        "rule": "one round = the C01, C06, C14 (predictor serialise/deserialise of self-produced bytes), C15, C02, C03, C04 and C05 workloads on fresh "
+                "generated inputs; executed (a) in the release+debug-assertions build where every get_unchecked*/unwrap_unchecked/str::get_unchecked "
+                "call checks its actual argument and aborts, and the crate's debug_assert!(is_char_boundary) etc. are live, (b) under AddressSanitizer "
+                "on the plain release build (the real unchecked path), (c) in %d feature configurations of the crate built with the same checks, "
+                "(d) under Miri with the tiny generator class; written buffers are re-validated as UTF-8; only precondition violations count "
+                "here (behavioural mismatches belong to the other properties); distinct = distinct generated inputs over all builds" % len(names),
+        "required": ["unsafe_surface_rounds", "char_ngram_occurrences", "type_ngram_occurrences", "dict_word_occurrences",
+                     "tokens_with_tag_model", "filter_changed_something:ConcatGraphemeClustersFilter",
+                     "filter_changed_something:SplitLinebreaksFilter", "sentences_with_escape_worthy_char_in_text",
+                     "predictors_with_tag_prediction", "feature_configurations_run_with_ub_checks", "predictions_in_feature_builds"],
+        "assumptions": COMMON_ASSUMPTIONS + [
+            "std's UB-precondition checks cover index/range arguments of the unchecked slice/str APIs, not character-boundary-ness (that is the crate's own debug_assert and the behavioural oracles)",
+            "ASan sees heap/stack out-of-bounds and use-after-free in the Rust code only (liblinear is not instrumented); Miri runs only the tiny generator class",
+        ],
+    }
+
+
 PROPS = {
     "C01": {"level": "exploration", "run": run_c01},
     "C02": {"level": "exploration", "run": run_c02},
@@ -327,9 +499,12 @@ PROPS = {
     "C10": {"level": "exploration", "run": run_c10},
     "C11": {"level": "exploration", "run": run_c11},
     "C12": {"level": "exploration", "run": run_c12},
+    "C13": {"level": "exploration", "run": run_c13},
     "C14": {"level": "exploration", "run": run_c14},
     "C15": {"level": "exploration", "run": run_c15},
+    "C16": {"level": "exploration", "run": run_c16},
     "C17": {"level": "exploration", "run": run_c17},
+    "C18": {"level": "exploration", "run": run_c18},
     "C19": {"level": "exploration", "run": run_c19},
     "C20": {"level": "exploration", "run": run_c20},
 }
